@@ -96,7 +96,8 @@ type family struct {
 	toks    []string // tokens for concatenation
 	refs    []string // fixed partners of the exhaustive enumeration
 	grammar func(r *rand.Rand) string
-	triPool []string // confusable strings; thorough tier enumerates all ordered triples
+	triPool []string             // confusable strings; thorough tier enumerates all ordered triples
+	canon   func(g []int) string // canonical version of the ecosystem's published grammar from a genome (nil: none)
 }
 
 var bigNum = "1234567890123456789012345"
@@ -285,6 +286,63 @@ func gMavenCanon(r *rand.Rand) string {
 	return s
 }
 
+// ---- canonical versions per published grammar, built from a genome so that a one-gene change gives
+// a confusable canonical neighbour (the oracle compares the implementation with the published rule)
+
+func gene(g []int, i int, pool []string) string { return pool[g[i%len(g)]%len(pool)] }
+
+var cNums = []string{"0", "1", "2", "3", "9", "10", "11", "20", "100", bigNum}
+
+func canonSemver(g []int) string {
+	s := gene(g, 0, cNums) + "." + gene(g, 1, cNums) + "." + gene(g, 2, cNums)
+	s += gene(g, 3, []string{"", "", "-alpha", "-alpha.1", "-alpha.beta", "-beta", "-rc.1", "-rc.10", "-1", "-0", "-x-y", "-RC.1", "--5", "-a.-1", "-1a"})
+	return s + gene(g, 4, []string{"", "", "", "+meta", "+b.7"})
+}
+
+func canonNuGet(g []int) string {
+	s := gene(g, 0, cNums) + "." + gene(g, 1, cNums) + "." + gene(g, 2, cNums) + gene(g, 5, []string{"", "", ".0", ".1", ".4", "." + bigNum})
+	s += gene(g, 3, []string{"", "", "-rc", "-RC", "-rc.1", "-Rc.1", "-alpha", "-ALPHA", "-beta.2", "-1", "-a-b", "-0a", "-rc.10", "--5"})
+	return s + gene(g, 4, []string{"", "", "", "+b7", "+B.7"})
+}
+
+func canonCran(g []int) string {
+	s := gene(g, 0, cNums)
+	for i, n := 0, 1+g[1]%3; i < n; i++ {
+		s += gene(g, 2+2*i, []string{".", ".", "-"}) + gene(g, 3+2*i, cNums)
+	}
+	return s
+}
+
+func canonDebian(g []int) string {
+	s := gene(g, 0, []string{"", "", "", "1:", "2:", "10:"})
+	s += gene(g, 1, cNums)
+	for i, n := 0, g[2]%3; i < n; i++ {
+		s += gene(g, 3+2*i, []string{".", ".", "+", "~", "~rc", "+b", "a", ".a", "~~", "+dfsg.", "z", "A"}) + gene(g, 4+2*i, cNums)
+	}
+	s += gene(g, 8, []string{"", "", "", "~", "a", "+dfsg", "~~", "+", "."})
+	return s + gene(g, 9, []string{"", "", "-1", "-2", "-0", "-1ubuntu1", "-1~bpo1", "-1+b1", "-1.1", "-10", "-1~"})
+}
+
+func canonRuby(g []int) string {
+	s := gene(g, 0, cNums)
+	for i, n := 0, g[1]%3; i < n; i++ {
+		s += "." + gene(g, 2+i, cNums)
+	}
+	s += gene(g, 6, []string{"", "", ".a", ".rc", ".rc.1", ".a.10", ".a.9", ".b.2", ".pre", ".A", ".0.a", ".a.0", ".rc.0.1"})
+	return s + gene(g, 7, []string{"", "", "", ".0", ".0.0"})
+}
+
+func canonPyPI(g []int) string {
+	s := gene(g, 0, []string{"", "", "", "1!", "2!"}) + gene(g, 1, cNums)
+	for i, n := 0, g[2]%3; i < n; i++ {
+		s += "." + gene(g, 3+i, cNums)
+	}
+	s += gene(g, 6, []string{"", "", "a1", "b2", "rc1", "a0", "rc10", "b1", "a2"})
+	s += gene(g, 7, []string{"", "", ".post1", ".post0", ".post10"})
+	s += gene(g, 8, []string{"", "", ".dev1", ".dev0", ".dev10"})
+	return s + gene(g, 9, []string{"", "", "", "+abc", "+1", "+abc.1", "+1.abc", "+a1", "+abc.2", "+10", "+abc.def"})
+}
+
 func cross(as, bs []string) []string {
 	var out []string
 	for _, a := range as {
@@ -300,27 +358,27 @@ var families = []family{
 		alpha12: []string{"0", "1", "2", ".", "-", "+", "a", "b", "v", "A", "~", "é"},
 		toks:    []string{"0", "1", "2", "10", "01", "007", "1.2.3", "1.2", "1.2.3.4", "v", "-", "+", "+build.5", ".", "rc", "rc.1", "alpha", "beta", "-1", "+1", "x", bigNum, "a.b", "-rc", "--", "1.0.0-", "1.0.0-alpha.1", "1.0.0-alpha.beta", "1.0.0+meta", "é", "~", "_", "-0", "-00", "-01", "-1a", "-a1", "RC", "V"},
 		refs:    []string{"1.0.0", "1.0.0-a.1"}, grammar: gSemver,
-		triPool: cross([]string{"1.0.0", "1.0", "1", "1.0.0.0", "1.0.1", "v1.0.0", "1.00.0"}, []string{"", "-a", "-1", "-01", "-a.1", "-a.b", "-rc.1", "-rc.1.0", "+m", "-", "-A", "-1a"})},
+		triPool: cross([]string{"1.0.0", "1.0", "1", "1.0.0.0", "1.0.1", "v1.0.0", "1.00.0"}, []string{"", "-a", "-1", "-01", "-a.1", "-a.b", "-rc.1", "-rc.1.0", "+m", "-", "-A", "-1a"}), canon: canonSemver},
 	{name: "nuget", ecos: []string{"NuGet"},
 		alpha12: []string{"0", "1", "2", ".", "-", "+", "a", "b", "v", "A", "B", "é"},
 		toks:    []string{"0", "1", "2", "10", "01", "1.2.3.4", "1.2.3.4.5", "v", "-", "+", ".", "rc", "RC", "Rc.1", "alpha", "ALPHA", "-1", "x", bigNum, "-rc", "-RC", "É", "é", "\u0130", "i", "\u212a", "k"},
 		refs:    []string{"1.0.0.0", "1.0.0-RC"}, grammar: gSemver,
-		triPool: cross([]string{"1.0.0.0", "1.0", "1", "1.0.0.0.0", "1.0.0.1", "1.0.0.0.1"}, []string{"", "-a", "-A", "-1", "-a.1", "-A.B", "-rc.1", "-RC.1", "+m", "-b"})},
+		triPool: cross([]string{"1.0.0.0", "1.0", "1", "1.0.0.0.0", "1.0.0.1", "1.0.0.0.1"}, []string{"", "-a", "-A", "-1", "-a.1", "-A.B", "-rc.1", "-RC.1", "+m", "-b"}), canon: canonNuGet},
 	{name: "cran", ecos: []string{"CRAN"},
 		alpha12: []string{"0", "1", "2", "9", ".", "-", "+", "a", "x", "_", "\u00a0", "é"},
 		toks:    []string{"0", "1", "2", "10", "01", "007", ".", "-", "1.2", "1-2", "a", "x", "+1", "+", bigNum, "", " ", "1.2.3", "..", "--", "é"},
 		refs:    []string{"1.0", "1-0-0"}, grammar: gCran,
-		triPool: cross([]string{"1", "1.0", "1-0", "1.0.0", "1.", "1..", "01", "+1", "1.1", "0.1", ""}, []string{"", ".0", "-1", ".01", "."})},
+		triPool: cross([]string{"1", "1.0", "1-0", "1.0.0", "1.", "1..", "01", "+1", "1.1", "0.1", ""}, []string{"", ".0", "-1", ".01", "."}), canon: canonCran},
 	{name: "debian", ecos: []string{"Debian", "Ubuntu"},
 		alpha12: []string{"0", "1", "9", ".", "-", ":", "~", "+", "a", "Z", "\u00a0", "é"},
 		toks:    []string{"0", "1", "2", "10", "01", "007", "1.2.3", "a", "b", "rc", "~", "~~", "+", "-", "--", ":", "1:", "0:", "x:", "-1:", ".", "..", "_", "^", "A", "Z", "z", "deb12u4", "ubuntu1", "dfsg", "+b1", bigNum, " ", "\t", "1a", "a1", "é", "\u00a0", "€"},
 		refs:    []string{"1.0-1", "1:1.0~rc1-1"}, grammar: gDebian,
-		triPool: cross([]string{"1.0", "1", "0:1.0", "1:1", "1.0~", "1.0~~", "1.0a", "1.0+", "1.0é", "1.00", "1.0.", "1.0-0", "1.0-"}, []string{"", "-1", "-1~", "~rc1", "+b1", "-01"})},
+		triPool: cross([]string{"1.0", "1", "0:1.0", "1:1", "1.0~", "1.0~~", "1.0a", "1.0+", "1.0é", "1.00", "1.0.", "1.0-0", "1.0-"}, []string{"", "-1", "-1~", "~rc1", "+b1", "-01"}), canon: canonDebian},
 	{name: "rubygems", ecos: []string{"RubyGems"},
 		alpha12: []string{"0", "1", "2", "9", ".", "-", "a", "b", "r", "c", "A", "é"},
 		toks:    []string{"0", "1", "2", "10", "01", "007", "1.2.3", ".", "..", "a", "b", "rc", "pre", "rc1", "1a", "a1", "-", "x", bigNum, ".0", "0.0", "A", "é", "+1", "-1"},
 		refs:    []string{"1.0.0", "1.0.0.rc1"}, grammar: gRuby,
-		triPool: cross([]string{"1", "1.0", "1.0.0", "1.0.1", "1.00", "01", "1.", "1..0"}, []string{"", ".a", ".rc1", "rc1", ".rc.1", ".a.0", "a", ".0.a", "-1", ".b", ".A"})},
+		triPool: cross([]string{"1", "1.0", "1.0.0", "1.0.1", "1.00", "01", "1.", "1..0"}, []string{"", ".a", ".rc1", "rc1", ".rc.1", ".a.0", "a", ".0.a", "-1", ".b", ".A"}), canon: canonRuby},
 	{name: "redhat", ecos: []string{"Red Hat"},
 		alpha12: []string{"0", "1", "9", ".", "-", ":", "~", "^", "a", "Z", "_", "é"},
 		toks:    []string{"0", "1", "2", "10", "01", "007", "1.2.3", "a", "b", "rc", "~", "~~", "^", "^^", "+", "-", "--", ":", "1:", "0:", "x:", ".", "..", "_", "A", "Z", "z", "el8", "fc39", bigNum, " ", "1a", "a1", "é", "€", "pkg-"},
@@ -335,7 +393,7 @@ var families = []family{
 		alpha12: []string{"0", "1", ".", "-", "!", "+", "a", "r", "c", "d", "v", "p"},
 		toks:    []string{"1!", "2!", ".post1", "-1", ".dev2", "dev", "post", "rev3", "r4", "c1", "rc", "preview", "pre", ".a1", "b", ".b2", "+local", "+abc.5", "+1.a", "+A_b", "1.0", "1.0.0", " ", "v", "V", ".", ".0", "final", "0", "1", "2", "10", "01", "007", "1.2.3", "a", "-", "_", "x", bigNum, "é", "\u0130", "\u212a", "~", "@", "*"},
 		refs:    []string{"1.0", "1.0.post1.dev2"}, grammar: gPyPI,
-		triPool: cross([]string{"1.0", "1", "1.0.0", "0!1", "1!0", "1.1", "x1", "1.0x"}, []string{"", "a", "a0", ".a1", "b1", "rc1", "c1", ".post1", "-1", ".dev1", ".post1.dev1", "a1.dev1", "+l", "+1", "+l.1", ".dev", "-"})},
+		triPool: cross([]string{"1.0", "1", "1.0.0", "0!1", "1!0", "1.1", "x1", "1.0x"}, []string{"", "a", "a0", ".a1", "b1", "rc1", "c1", ".post1", "-1", ".dev1", ".post1.dev1", "a1.dev1", "+l", "+1", "+l.1", ".dev", "-"}), canon: canonPyPI},
 	{name: "alpine", ecos: []string{"Alpine"},
 		alpha12: []string{"0", "1", "9", ".", "_", "-", "r", "p", "a", "~", "c", "é"},
 		toks:    []string{"0", "1", "2", "10", "01", "00", "007", "1.2.3", ".", "..", "a", "b", "z", "A", "_alpha", "_beta1", "_pre", "_rc2", "_p", "_p1", "_pre1", "_git", "_hg3", "_cvs", "_svn", "_x", "-r", "-r0", "-r12", "-rx", "~abc", "~1f", "~g", "~", bigNum, "é", "!", "_"},
@@ -420,7 +478,29 @@ func mutate(r *rand.Rand, f *family, s string) string {
 	}
 }
 
+func genome(r *rand.Rand) []int {
+	g := make([]int, 12)
+	for i := range g {
+		g[i] = r.Intn(1000)
+	}
+	return g
+}
+
 func genPair(r *rand.Rand, f *family) (string, string) {
+	if f.canon != nil && r.Intn(100) < 25 {
+		g := genome(r)
+		a := f.canon(g)
+		switch k := r.Intn(100); {
+		case k < 55: // one gene changed: a confusable canonical neighbour
+			h := append([]int{}, g...)
+			h[r.Intn(len(h))] = r.Intn(1000)
+			return a, f.canon(h)
+		case k < 65:
+			return a, a
+		default:
+			return a, f.canon(genome(r))
+		}
+	}
 	a := genString(r, f)
 	switch k := r.Intn(100); {
 	case k < 8:
